@@ -260,15 +260,31 @@ def gen_table(rng, with_cons=True):
         args.append(sa.ForeignKeyConstraint([names[-1]], ["other.id"], name=rng.choice([None, "fk_1"]),
                                             ondelete=rng.choice([None, "CASCADE"])))
         sa.Table("other", md, sa.Column("id", sa.Integer, primary_key=True))
-    kw = {}
-    if rng.random() < 0.2:
-        kw["comment"] = "tbl"
-    if rng.random() < 0.15:
-        kw["mysql_engine"] = "InnoDB"
-    if rng.random() < 0.1:
-        kw["prefixes"] = ["TEMPORARY"]
+    kw = gen_table_kw(rng)
+    if kw.get("sqlite_with_rowid") is False and not any(c.primary_key for c in cols):
+        args[0] = cols[0] = sa.Column(names[0], sa.Integer, primary_key=True)   # WITHOUT ROWID needs a primary key
     t = sa.Table(n, md, *args, schema=rng.choice(SCHEMAS), **kw)
     return t
+
+
+def gen_table_kw(rng):
+    """table-level options, truthy and falsy values: dialect kwargs, comment, prefixes, info"""
+    kw = {}
+    if rng.random() < 0.35:
+        kw["sqlite_with_rowid"] = rng.random() < 0.35          # False => WITHOUT ROWID
+    if rng.random() < 0.15:
+        kw["sqlite_strict"] = rng.random() < 0.6
+    if rng.random() < 0.2:
+        kw["mysql_engine"] = rng.choice(["InnoDB", "MyISAM", ""])
+    if rng.random() < 0.1:
+        kw["postgresql_partition_by"] = rng.choice(["RANGE (id)", ""])
+    if rng.random() < 0.25:
+        kw["comment"] = rng.choice(["tbl", "it's", ""])
+    if rng.random() < 0.15:
+        kw["prefixes"] = rng.choice([["TEMPORARY"], []])
+    if rng.random() < 0.15:
+        kw["info"] = rng.choice([{"owner": "x"}, {}, {"flag": False}])
+    return kw
 
 
 def gen_alter(rng, lossy):
@@ -310,7 +326,10 @@ def gen_leaf(rng, lossy_p=0.12):
         if rng.random() < 0.6:
             op = ops.CreateTableOp.from_table(t)
         else:
-            op = ops.CreateTableOp(t.name, [sa.Column(c.name, c.type, nullable=c.nullable) for c in t.c], schema=t.schema)
+            kw = gen_table_kw(rng)
+            op = ops.CreateTableOp(t.name, [sa.Column(c.name, c.type, nullable=c.nullable,
+                                                      primary_key=(i == 0 and kw.get("sqlite_with_rowid") is False))
+                                            for i, c in enumerate(t.c)], schema=t.schema, **kw)
         if lossy:
             op.if_not_exists = True
         return op
@@ -318,7 +337,7 @@ def gen_leaf(rng, lossy_p=0.12):
         if rng.random() < 0.75:
             op = ops.DropTableOp.from_table(gen_table(rng))
         else:
-            op = ops.DropTableOp(tn, schema=sc)
+            op = ops.DropTableOp(tn, schema=sc, table_kw=gen_table_kw(rng))
         if lossy:
             op.if_exists = True
         return op
